@@ -320,6 +320,14 @@ func genSimpleSet(r *Rng) clip.Paths64 {
 	if r.Chance(0.2) {
 		out[0] = decorateDup(r, out[0])
 	}
+	if r.Chance(0.15) {
+		// explicit closing point(s): the ring ends with its first point, once or twice
+		k := r.Intn(len(out))
+		out[k] = append(append(clip.Path64{}, out[k]...), out[k][0])
+		if r.Bool() {
+			out[k] = append(out[k], out[k][0])
+		}
+	}
 	if len(out) > 1 && r.Chance(0.5) {
 		// the order in which the rings of one polygon are listed is immaterial (a hole may come
 		// before its outer boundary)
@@ -401,7 +409,7 @@ func init() {
 			return nil
 		}
 	}
-	reg("c05-search", "C05", "c05", "simple polygon sets with holes (stars, nested rings, rectangles; both global orientations; repeated points; 6 % regular 5- to 90-gons and plates with such holes, radius 60-1000, |delta| at 0.8-1.6 of the inradius) × delta from ±0.3 to beyond the inradius × 4 join types × miter limits 1-10 × arc tolerances; result canonical (C02 oracle); exact-rational samples: points within delta−tol of the input region along edge normals must be inside, every solution vertex / edge midpoint within k·delta+tol of the input region, and points of the complement beyond that distance (inside holes too) outside the solution; mirrored for shrinking; |delta|<0.5 identity; judged by the Lean oracle with exact distances and winding numbers; non-trivial = ≥ 4 judged samples",
+	reg("c05-search", "C05", "c05", "simple polygon sets with holes (stars, nested rings, rectangles; both global orientations; repeated points, explicit closing points once or twice; 6 % regular 5- to 90-gons and plates with such holes, radius 60-1000, |delta| at 0.8-1.6 of the inradius) × delta from ±0.3 to beyond the inradius × 4 join types × miter limits 1-10 × arc tolerances; result canonical (C02 oracle); exact-rational samples: points within delta−tol of the input region along edge normals must be inside, every solution vertex / edge midpoint within k·delta+tol of the input region, and points of the complement beyond that distance (inside holes too) outside the solution; mirrored for shrinking; |delta|<0.5 identity; judged by the Lean oracle with exact distances and winding numbers; non-trivial = ≥ 4 judged samples",
 		func(r *Rng) offCase {
 			if r.Chance(0.06) {
 				return genRoundCase(r)
